@@ -16,6 +16,14 @@ IGNORE line at all, and the chain's directory names range over every equality pa
 x/y/x, ...), so that one IGNORE text can mean something relative to a level other than the one it
 stands in.  What each such line means is decided by reference() alone.
 
+Family G ("rewrite") drops the assumption that the files are at rest for the life of the process:
+a case is a HISTORY  call - change on disk - call.  The chain is materialised as it was BEFORE, the
+judged call's twin (same start, same flags) is made on it, then the Manifest of exactly one level is
+changed to another option of that level's menu - rewritten in place (open(path, 'wb'): same inode),
+unlinked and created again, or replaced through os.replace(); also created, deleted, or switched between
+plain and compressed - and then comes the judged call.  reference() is given the final files only: the
+statement speaks of the Manifests that are there when discovery runs, not of what an earlier call saw.
+
 Chain directories form a fixed skeleton; the DFS assigns one level per node, so each
 node costs one Manifest write + one unlink.  The walk from depth s never looks below s,
 hence "every start depth of every chain" == "every chain of length s started at s".
@@ -70,14 +78,25 @@ RULE = ('every directory chain r/c1/../cs started at its deepest level s (the wa
         'with all names distinct and G = {no IGNORE}; thorough: s<=2 as quick, s=3 with all P and G = {no '
         'IGNORE} + one-component runs, s=4 with all names distinct and no compressed option; crossed '
         'with allow_compressed off/on (s=4: off) x {no boundary, boundary above level b with allow_xdev '
-        'off for every b in 1..s}.  Every chain of the other families is crossed with allow_compressed off/on x {no device boundary, '
+        'off for every b in 1..s}.  Family G ("rewrite", history call - change - call; s<=2 quick / <=3 thorough): '
+        'the chain BEFORE ranges over every combination of per-level options {no Manifest} + plain x {no IGNORE, '
+        'every whole-component prefix of the start path (ancestors, exact start), longer look-alike of the next '
+        'component} + gz x {no IGNORE, exact start} (start level: {none, plain, gz}); the same call as the judged '
+        'one (same start, same flags) is made on it; then ONE level j (every j in 0..s) is changed to every OTHER '
+        'option of its menu (IGNORE added / removed / changed, Manifest created / deleted / plain <-> gz) in every '
+        'applicable mode of {inplace = open(path, "wb") on the existing file, same inode; recreate = unlink + '
+        'create; replace = temporary file + os.replace()} (inplace / replace only when the file name stays the '
+        'same); then the judged call, compared with the reference of the FINAL files; crossed with '
+        'allow_compressed off/on x {no boundary, boundary above level b with allow_xdev off for every b in 1..s}.  '
+        'Every chain of the families A-E is crossed with allow_compressed off/on x {no device boundary, '
         'boundary directly above level b for every b in 1..s} x allow_xdev off/on (family C: '
         'allow_xdev on only for b in {none, s}).  A case = (family, name pattern (F), option labels of all levels, '
-        'start depth, boundary, allow_xdev, allow_compressed, path form); cases are distinct by '
+        'start depth, boundary, allow_xdev, allow_compressed, path form; G: + changed level, its new option, mode); cases are distinct by '
         'construction and counted through their digests (finish() checks digests == calls).  '
         'Non-trivial = reference verdict definite, at least one Manifest file on the chain, and at '
         'least one discriminator (second Manifest, an IGNORE line, a compressed or foreign Manifest, '
-        'or a device boundary).')
+        'or a device boundary); family G: reference verdict definite and the changed Manifest is one the '
+        'reference walk reads before or after the change.')
 ASSUMPTIONS = [
     'reference() is an independent restatement of the statement (upward walk, whole-component '
     'IGNORE match, outermost candidate, compressed only when allowed, stop at device boundary); '
@@ -103,6 +122,13 @@ ASSUMPTIONS = [
     'family F (IGNORE of arbitrary sub-paths of the start path, repeated directory names): one IGNORE line '
     'per Manifest, depth <= 3 quick / <= 4 thorough, repeated names only up to depth 2 quick / 3 thorough; '
     'outside F all chain directory names are pairwise distinct',
+    'family G (history): exactly one earlier call (the judged call\'s twin) and exactly one changed level per case, '
+    'menu without sibling / shorter look-alike IGNOREs and without bz2/lzma/xz, depth <= 2 quick / <= 3 thorough, '
+    'absolute start path; the earlier call itself is not judged (the same call on files at rest is a case of '
+    'family A); the change happens between the calls, never during one; whether unlink + create hands out the '
+    'same inode number again is up to the filesystem of the scratch directory (tmpfs here) and is not forced; '
+    'in the families A-F every Manifest is a newly created file (unlink + create) and the only earlier call is '
+    'the priming call with the opposite flags',
     'vacuity self-checks are taken over the complete space only: when the exploration is cut short (a shard '
     'stops after 100 violations, the run after 32 such shards) they are skipped and a note says so - the run '
     'then ends with VIOLATION lines, or with the runner\'s own NOT-decided error',
@@ -334,6 +360,8 @@ def ig_menu(i, s, names, which):
         out += [pre[-1], llong]
     elif which == 'gz_thorough':
         out += ([pre[0]] if L > 1 else []) + [pre[-1], llong]
+    elif which == 'rewrite':          # family G: every whole-component prefix + a look-alike
+        out += pre + [llong]
     elif which == 'small':            # {none, exact}
         out += [pre[-1]]
     elif which == 'deep5':            # what the statement names: path, ancestor, sibling, look-alike
@@ -371,6 +399,9 @@ def level_menu(fam, tier, i, s, names):
     elif fam in ('B', 'E'):
         out += [Lv('plain', lab, en) for lab, en in ig_menu(i, s, names, 'small')]
         out += [Lv('gz', 'none', [BENIGN])]
+    elif fam == 'G':
+        out += [Lv('plain', lab, en) for lab, en in ig_menu(i, s, names, 'rewrite')]
+        out += [Lv('gz', lab, en) for lab, en in ig_menu(i, s, names, 'small')]
     elif fam == 'D':
         for foreign in (False, True):
             out += [Lv('plain', lab, en, foreign=foreign) for lab, en in ig_menu(i, s, names, 'small')]
@@ -660,6 +691,35 @@ class Chain:
             assert back == (lv.text if fmt is None else lv.ctext), (p, back)
         self.lvs[i] = lv
 
+    def rewrite(self, i, lv, mode):
+        """Family G: change level i from its current option to ``lv`` the way ``mode`` says.
+        'recreate' = unlink what is there, then create the new file(s) (also: create / delete / switch of
+        file name); 'inplace' = open(path, 'wb') on the existing file (same inode, new contents);
+        'replace' = write a temporary file next to it and os.replace() it over the Manifest."""
+        if mode == 'recreate':
+            self.set(i, lv)
+            return
+        old = self.lvs[i]
+        new = lv.files()
+        assert mode in ('inplace', 'replace') and new and not old.foreign and not lv.foreign
+        assert [f[0] for f in old.files()] == [f[0] for f in new], (old.tag, lv.tag)
+        for fname, data, fmt in new:
+            p = os.path.join(self.dirs[i], fname)
+            ino = os.stat(p).st_ino
+            if mode == 'inplace':
+                with open(p, 'wb') as f:
+                    f.write(data)
+                assert os.stat(p).st_ino == ino, 'in-place rewrite changed the inode'
+            else:
+                tmp = p + '.new~'
+                with open(tmp, 'wb') as f:
+                    f.write(data)
+                os.replace(tmp, p)
+            with open(p, 'rb') as f:
+                back = decompress(f.read(), fmt).decode('utf8')
+            assert back == (lv.text if fmt is None else lv.ctext), (p, back)
+        self.lvs[i] = lv
+
     def expected_path(self, res):
         return None if res is None else os.path.join(self.dirs[res[0]], res[1])
 
@@ -693,7 +753,7 @@ def start_path(chain, form):
     raise ValueError(form)
 
 
-def describe(chain, b, xdev, comp, form):
+def describe(chain, b, xdev, comp, form, hist=None):
     parts = []
     for i, lv in enumerate(chain.lvs):
         nm = 'r' if i == 0 else chain.names[i]
@@ -701,7 +761,9 @@ def describe(chain, b, xdev, comp, form):
         if b is not None and i == b - 1:
             parts.append('||dev||')
     return (' / '.join(parts) + f'  start={chain.s} allow_xdev={xdev} allow_compressed={comp}'
-            + (f' form={form}' if form != 'abs' else ''))
+            + (f' form={form}' if form != 'abs' else '')
+            + (f'  history: same call made before, then the Manifest of level {hist[0]} changed '
+               f'[{hist[2]}] from [{hist[1].tag}] to [{chain.lvs[hist[0]].tag}]' if hist else ''))
 
 
 def blame(chain, ref, got, comp):
@@ -726,10 +788,20 @@ def blame(chain, ref, got, comp):
     return 'same-level' if gl == el else 'passthrough'
 
 
-def check_one(chain, b, xdev, comp, form='abs', group='chain', stats=None, virtual=True):
+def check_one(chain, b, xdev, comp, form='abs', group='chain', stats=None, virtual=True, rewrite=None):
     """Run the real routine on the materialised chain and judge it.  -> (violation|None, Ref)
-    virtual=False: the caller has put a real mount point at level b; the DevMap stays off."""
-    s, lvs, names = chain.s, chain.lvs, chain.names
+    virtual=False: the caller has put a real mount point at level b; the DevMap stays off.
+    rewrite=(j, lv, mode) (family G): the chain as materialised is the state BEFORE; the very same call
+    is made on it first, then level j is changed to lv (Chain.rewrite), then comes the judged call.  The
+    reference is given the final levels only."""
+    s, names = chain.s, chain.names
+    hist = None
+    if rewrite is None:
+        lvs = chain.lvs
+    else:
+        lvs = list(chain.lvs)
+        hist = (rewrite[0], lvs[rewrite[0]], rewrite[2])
+        lvs[rewrite[0]] = rewrite[1]
     ref = reference(lvs, names, s, b, xdev, comp)
     accept = None
     if ref.verdict == 'must':
@@ -749,7 +821,8 @@ def check_one(chain, b, xdev, comp, form='abs', group='chain', stats=None, virtu
         # history, not a single call: the same start is first queried with the opposite allow_compressed
         # (and allow_xdev) setting, so anything the routine remembers between calls in one process is part
         # of the judged execution - and of its stand-alone replay
-        gem.call(ftl.find_top_level_manifest, path, allow_xdev=not xdev, allow_compressed=not comp)
+        if rewrite is None:
+            gem.call(ftl.find_top_level_manifest, path, allow_xdev=not xdev, allow_compressed=not comp)
         # the judged call passes only NON-default keyword arguments, so the documented defaults
         # (allow_xdev=True, allow_compressed=False - what the CLI relies on) are what is exercised
         kw = {}
@@ -757,6 +830,11 @@ def check_one(chain, b, xdev, comp, form='abs', group='chain', stats=None, virtu
             kw['allow_xdev'] = False
         if comp:
             kw['allow_compressed'] = True
+        if rewrite is not None:
+            # history of family G: the judged call's twin on the chain as it was, then the change on disk
+            gem.call(ftl.find_top_level_manifest, path, **kw)
+            chain.rewrite(*rewrite)
+            assert chain.lvs == lvs
         o = gem.call(ftl.find_top_level_manifest, path, **kw)
     finally:
         PROXY.inner = None
@@ -769,7 +847,10 @@ def check_one(chain, b, xdev, comp, form='abs', group='chain', stats=None, virtu
         nonlocal case
         case = {'group': group, 'names': names[1:], 'start': s, 'levels': [lv.to_json() for lv in lvs],
                 'boundary': b, 'allow_xdev': xdev, 'allow_compressed': comp, 'form': form}
-        return {'sig': sig, 'case': case, 'message': f'{msg} :: {describe(chain, b, xdev, comp, form)}'}
+        if hist:
+            case['rewrite'] = {'level': hist[0], 'before': hist[1].to_json(), 'mode': hist[2]}
+            sig['mode'] = hist[2]
+        return {'sig': sig, 'case': case, 'message': f'{msg} :: {describe(chain, b, xdev, comp, form, hist)}'}
 
     if o['kind'] == 'exc':
         sig = {'check': 'internal_error' if o.get('class') == 'internal' else 'unexpected_exception',
@@ -816,7 +897,7 @@ def check_one(chain, b, xdev, comp, form='abs', group='chain', stats=None, virtu
                 outcome = 'MISMATCH:' + rel
     if stats is not None:
         stats.evaluations += 1
-        stats.transitions += 1
+        stats.transitions += 1 if rewrite is None else 2
         stats.outcomes[f'{ref.cls if ref.verdict == "must" else "dontcare"}/{outcome}'] += 1
         if ref.verdict == 'must' and accept is not None:
             stats.compared += 1
@@ -832,7 +913,7 @@ def check_one(chain, b, xdev, comp, form='abs', group='chain', stats=None, virtu
 def flagset(s, fam, comps=(False, True)):
     out = []
     forms = ('abs',)
-    if fam == 'F':
+    if fam in ('F', 'G'):
         # no boundary, or a boundary above any level with crossing disallowed
         for comp in comps:
             out.append((None, True, comp, 'abs'))
@@ -857,7 +938,74 @@ def flagset(s, fam, comps=(False, True)):
 
 
 SAMPLE_CLASSES = ('stop-ignore', 'outermost', 'stop-xdev', 'none/ignore', 'single', 'none/xdev', 'dontcare')
-GROUP = {'A': 'chain', 'B': 'chain', 'C': 'chain', 'E': 'forms', 'D': 'mlink', 'F': 'subpath'}
+GROUP = {'A': 'chain', 'B': 'chain', 'C': 'chain', 'E': 'forms', 'D': 'mlink', 'F': 'subpath', 'G': 'rewrite'}
+MODES = ('inplace', 'recreate', 'replace')
+
+
+def modes_for(x, y):
+    """Ways to turn option x of a level into option y: all three when both have the same file name,
+    otherwise only unlink + create (which then is a creation, a deletion or a change of file name)."""
+    if x.present() and y.present() and [f[0] for f in x.files()] == [f[0] for f in y.files()]:
+        return MODES
+    return ('recreate',)
+
+
+def _reads(ref, j):
+    """Does the reference walk read the Manifest of level j?"""
+    if ref.stop is None:
+        return True
+    return j > ref.stop[1] if ref.stop[0] == 'xdev' else j >= ref.stop[1]
+
+
+def run_leaf_G(chain, menus, stats):
+    """Family G: the DFS leaf is the chain BEFORE; every single-level change x -> y (y any other option of
+    that level's menu) x every applicable mode x every flag set is one case."""
+    s, names = chain.s, chain.names
+    base = tuple(chain.lvs)
+    key0 = ('G', s) + tuple((lv.kind, lv.label) for lv in base)
+    c = stats.counters
+    for j in range(s + 1):
+        x = base[j]
+        for y in menus[j]:
+            if y is x:
+                continue
+            for mode in modes_for(x, y):
+                for (b, xdev, comp, form) in flagset(s, 'G'):
+                    chain.set(j, x)               # the state before, in files of its own
+                    ref0 = reference(base, names, s, b, xdev, comp)
+                    viol, ref = check_one(chain, b, xdev, comp, form, GROUP['G'], stats, rewrite=(j, y, mode))
+                    definite = ref.verdict == 'must' and ref0.verdict == 'must'
+                    read = _reads(ref, j) or _reads(ref0, j)
+                    stats.case(repr((key0, j, y.kind, y.label, mode, b, xdev, comp, form)),
+                               nontrivial=definite and read)
+                    if viol:
+                        stats.violation(viol['sig'], viol['case'], viol['message'])
+                    c['G_cases'] += 1
+                    c['G_mode_' + mode] += 1
+                    if not definite:
+                        continue
+                    c['G_cls_' + ref.cls] += 1
+                    if read:
+                        c['G_walk_reads_changed_manifest'] += 1
+                    if ref0.result != ref.result:
+                        c['G_required_result_changes'] += 1
+                        c['G_required_result_changes_' + mode] += 1
+                        if ref.result is None:
+                            c['G_required_result_becomes_none'] += 1
+                        if ref0.result is None:
+                            c['G_required_result_was_none'] += 1
+                    st0, st1 = ref0.stop == ('ignore', j), ref.stop == ('ignore', j)
+                    if st1 and not st0:
+                        c['G_change_makes_manifest_ignore_start'] += 1
+                    if st0 and not st1:
+                        c['G_change_stops_manifest_ignoring_start'] += 1
+                    if not x.present():
+                        c['G_manifest_created'] += 1
+                    if not y.present():
+                        c['G_manifest_deleted'] += 1
+                    if comp and (x.cfmt or y.cfmt) and ref0.result != ref.result:
+                        c['G_compressed_change_matters'] += 1
+        chain.set(j, x)
 
 
 def run_leaf(chain, fam, stats, extra_key=(), comps=(False, True)):
@@ -930,7 +1078,10 @@ def dfs(chain, menus, fixed, fam, stats, extra_key=(), comps=(False, True)):
 
     def rec(i):
         if i > s:
-            run_leaf(chain, fam, stats, extra_key, comps)
+            if fam == 'G':
+                run_leaf_G(chain, menus, stats)
+            else:
+                run_leaf(chain, fam, stats, extra_key, comps)
             stats.counters['chains'] += 1
             stats.counters[f'chains_{fam}_s{s}'] += 1
             return
@@ -944,9 +1095,10 @@ def dfs(chain, menus, fixed, fam, stats, extra_key=(), comps=(False, True)):
     rec(0)
 
 
-MAX_S = {'quick': {'A': 4, 'B': 3, 'E': 3, 'D': 3, 'F': 3},
-         'thorough': {'A': 4, 'B': 4, 'C': 6, 'E': 3, 'D': 3, 'F': 4}}
+MAX_S = {'quick': {'A': 4, 'B': 3, 'E': 3, 'D': 3, 'F': 3, 'G': 2},
+         'thorough': {'A': 4, 'B': 4, 'C': 6, 'E': 3, 'D': 3, 'F': 4, 'G': 3}}
 LEAVES_PER_SHARD = {'quick': 400, 'thorough': 1500}
+G_LEAF_WEIGHT = 16        # a family-G leaf (chain before) stands for every change of it: far more cases
 
 
 def _split(menus, target):
@@ -992,8 +1144,8 @@ def shards(tier, seed):
                 leaves = 1
                 for n in sizes:
                     leaves *= n
-                k = _split(menus, target)
-                cost = leaves
+                k = _split(menus, target // G_LEAF_WEIGHT if fam == 'G' else target)
+                cost = leaves * (G_LEAF_WEIGHT if fam == 'G' else 1)
                 for n in sizes[:k]:
                     cost //= n
                 for p in _prefixes(sizes, k):
@@ -1075,10 +1227,17 @@ def replay(case, scratch):
             if other is None:
                 raise HarnessPrecondition('replay needs a second filesystem at tempfile.gettempdir()')
         chain = Chain(root, names, s, other)
+        rw = case.get('rewrite')
+        rewrite = None
+        if rw:
+            # 'levels' are the final files; the chain is first built as it was before the change
+            rewrite = (rw['level'], lvs[rw['level']], rw['mode'])
+            lvs = list(lvs)
+            lvs[rw['level']] = Lv.from_json(rw['before'])
         for i, lv in enumerate(lvs):
             chain.set(i, lv)
         viol, _ref = check_one(chain, case.get('boundary'), case['allow_xdev'], case['allow_compressed'],
-                               case.get('form', 'abs'), case.get('group', 'chain'))
+                               case.get('form', 'abs'), case.get('group', 'chain'), rewrite=rewrite)
     finally:
         PROXY.inner = None
         if other is not None:
@@ -1105,6 +1264,29 @@ F_NEED = {
 }
 
 
+G_NEED = {
+    'G_cases': 'a case',
+    'G_mode_inplace': 'Manifest rewritten in place (same inode)',
+    'G_mode_recreate': 'Manifest unlinked and created again',
+    'G_mode_replace': 'Manifest replaced through os.replace()',
+    'G_walk_reads_changed_manifest': 'the changed Manifest is one the reference walk reads',
+    'G_required_result_changes_inplace': 'in-place rewrite after which the required result differs from before',
+    'G_required_result_changes_recreate': 'unlink + create after which the required result differs from before',
+    'G_required_result_changes_replace': 'os.replace() after which the required result differs from before',
+    'G_required_result_becomes_none': 'required result turns into None',
+    'G_required_result_was_none': 'required result was None before the change',
+    'G_change_makes_manifest_ignore_start': 'change that makes a Manifest IGNORE the start path',
+    'G_change_stops_manifest_ignoring_start': 'change after which a Manifest no longer IGNOREs the start path',
+    'G_manifest_created': 'Manifest created between the calls',
+    'G_manifest_deleted': 'Manifest deleted between the calls',
+    'G_compressed_change_matters': 'change of / into a compressed Manifest that alters the required result',
+    'G_cls_outermost': 'reference class outermost',
+    'G_cls_stop-ignore': 'reference class stop-ignore',
+    'G_cls_none/ignore': 'reference class none/ignore',
+    'G_cls_stop-xdev': 'reference class stop-xdev',
+}
+
+
 def finish(total, tier):
     errs = []
     c = total.counters
@@ -1119,6 +1301,9 @@ def finish(total, tier):
     for k, what in F_NEED.items():
         if not c.get(k):
             errs.append(f'vacuity (family F, sub-path IGNOREs): never seen: {what}')
+    for k, what in G_NEED.items():
+        if not c.get(k):
+            errs.append(f'vacuity (family G, Manifest changed between two calls): never seen: {what}')
     need = {
         'ref_none': 'reference result None',
         'ref_innermost_of_many': 'reference returns the innermost of several Manifests (walk stopped)',
@@ -1159,4 +1344,5 @@ def extra_evidence(total, tier):
                                               if k.startswith('chains_')},
         'max_start_depth': max(MAX_S[tier].values()),
         'subpath_family_F': {k: v for k, v in sorted(c.items()) if k.startswith('F_')},
+        'rewrite_family_G': {k: v for k, v in sorted(c.items()) if k.startswith('G_')},
     }
